@@ -5,6 +5,7 @@ import Driver.Ops.Jinja
 import Driver.Ops.Lifecycle
 import Driver.Ops.Matcher
 import Driver.Ops.Merge
+import Driver.Ops.Paths
 import Driver.Ops.TextFile
 import Driver.Ops.Tftp
 import Driver.Ops.Yaml
@@ -22,6 +23,7 @@ def allOps : List (String × Op) :=
   Driver.Lifecycle.ops ++
   Driver.Matcher.ops ++
   Driver.Merge.ops ++
+  Driver.Paths.ops ++
   Driver.TextFile.ops ++
   Driver.Tftp.ops ++
   Driver.Yaml.ops
